@@ -117,6 +117,45 @@ func smallSets() []*Set {
 }
 
 // ---------------------------------------------------------------------------
+// proto3 optional: explicit presence for every kind (synthetic oneofs), next to real oneofs and implicit-presence
+// twins, field numbers of every tag width
+
+func optional3(m *msgB, f *descriptorpb.FieldDescriptorProto) *descriptorpb.FieldDescriptorProto {
+	f.Proto3Optional = proto.Bool(true)
+	f.OneofIndex = proto.Int32(m.oneof("_" + f.GetName())) // synthetic oneofs come after the real ones (callers add real ones first)
+	return f
+}
+
+func optionalSets() []*Set {
+	pkg := "vf.opt3"
+	f := newFile("opt3", "opt3", pkg)
+	leaf, en := commonTypes(f, pkg)
+	kinds := allKinds(leaf, en)
+	m := newMsg("."+pkg, "Opt")
+	ch := m.oneof("choice")
+	m.add(inOneof(field("c_text", 3, kindSpec{t: tString}), ch))
+	m.add(inOneof(field("c_num", 70000, kindSpec{t: tSint32}), ch))
+	m.add(inOneof(field("c_leaf", 4, leaf), ch))
+	for i, k := range kinds {
+		lo := widthRanges[i%5][0]
+		m.add(optional3(m, field("o_"+k.tag, lo+int32(10+2*i), k)))
+		m.add(field("p_"+k.tag, lo+int32(11+2*i), k))
+	}
+	m.add(repeated(field("children", 2, kindSpec{t: tMessage, name: "." + pkg + ".Opt"})))
+	m.addMap("by_name", 5, tString, kindSpec{t: tMessage, name: "." + pkg + ".Opt"})
+	f.msg(m)
+	// only optional fields, out of number order
+	o := newMsg("."+pkg, "OnlyOptional")
+	o.add(optional3(o, field("z", 9, kindSpec{t: tBytes})))
+	o.add(optional3(o, field("a", 1, kindSpec{t: tBool})))
+	o.add(optional3(o, field("m", 5, kindSpec{t: tMessage, name: "." + pkg + ".OnlyOptional"})))
+	o.add(optional3(o, field("e", 2, en)))
+	o.add(optional3(o, field("d", 536870911, kindSpec{t: tDouble})))
+	f.msg(o)
+	return []*Set{simpleSet("optional3", f)}
+}
+
+// ---------------------------------------------------------------------------
 // oneofs: several oneofs interleaved with plain fields, numbers out of order
 
 func oneofSets() []*Set {
@@ -368,7 +407,45 @@ func xpkgSets() []*Set {
 	send.addMap("by_denom", 3, tString, kindSpec{t: tMessage, name: ".vf.xpkg.base.v1.Coin"})
 	vk.msg(send)
 	same := simpleSet("xpkg-same-go-name", vb, vk)
-	return []*Set{all, ms, ss, same}
+	// import public: c imports only b, b publicly imports a, c uses a's types; explicit options that do not change
+	// the encoding ([packed=true], lazy, deprecated, jstype), reserved ranges and names
+	pa := newFile("xpa", "a", "vf.xpub.a")
+	am := newMsg(".vf.xpub.a", "Origin")
+	am.add(field("id", 1, kindSpec{t: tFixed64}))
+	an := newMsg(am.full, "Part")
+	an.add(field("w", 1, kindSpec{t: tSint32}))
+	am.nest(an)
+	am.d.ReservedRange = []*descriptorpb.DescriptorProto_ReservedRange{{Start: proto.Int32(5), End: proto.Int32(10)}, {Start: proto.Int32(100), End: proto.Int32(101)}}
+	am.d.ReservedName = []string{"old_name", "older"}
+	pa.msg(am)
+	ae := enum("Grade", "GRADE_UNSPECIFIED", 0, "GRADE_A", 1, "GRADE_B", 2)
+	ae.ReservedRange = []*descriptorpb.EnumDescriptorProto_EnumReservedRange{{Start: proto.Int32(7), End: proto.Int32(9)}}
+	ae.ReservedName = []string{"GRADE_OLD"}
+	pa.enum(ae)
+	pb := newFile("xpb", "b", "vf.xpub.b")
+	pb.dep("zzgen/xpa/a.proto")
+	pb.f.PublicDependency = []int32{0}
+	bm := newMsg(".vf.xpub.b", "Relay")
+	bm.add(field("origin", 1, kindSpec{t: tMessage, name: ".vf.xpub.a.Origin"}))
+	pb.msg(bm)
+	pc := newFile("xpc", "c", "vf.xpub.c")
+	pc.dep("zzgen/xpb/b.proto")
+	cm := newMsg(".vf.xpub.c", "User")
+	cm.add(field("relay", 1, kindSpec{t: tMessage, name: ".vf.xpub.b.Relay"}))
+	cm.add(field("origin", 2, kindSpec{t: tMessage, name: ".vf.xpub.a.Origin"}))
+	cm.add(repeated(field("parts", 3, kindSpec{t: tMessage, name: ".vf.xpub.a.Origin.Part"})))
+	cm.add(field("grade", 4, kindSpec{t: tEnum, name: ".vf.xpub.a.Grade"}))
+	cm.addMap("by_grade", 5, tString, kindSpec{t: tEnum, name: ".vf.xpub.a.Grade"})
+	pk := repeated(field("explicit_packed", 6, kindSpec{t: tSint64}))
+	pk.Options = &descriptorpb.FieldOptions{Packed: proto.Bool(true), Deprecated: proto.Bool(true), Jstype: descriptorpb.FieldOptions_JS_STRING.Enum()}
+	cm.add(pk)
+	lz := field("lazy_origin", 7, kindSpec{t: tMessage, name: ".vf.xpub.a.Origin"})
+	lz.Options = &descriptorpb.FieldOptions{Lazy: proto.Bool(true)}
+	cm.add(lz)
+	cm.d.Options = &descriptorpb.MessageOptions{Deprecated: proto.Bool(true)}
+	pc.msg(cm)
+	pub := simpleSet("xpkg-import-public", pa, pb, pc)
+	return []*Set{all, ms, ss, same, pub}
 }
 
 // ---------------------------------------------------------------------------
